@@ -1,6 +1,7 @@
 package core
 
 import (
+	"html"
 	"io"
 )
 
@@ -15,5 +16,6 @@ func NewAnchor(name string) *Anchor {
 }
 
 func (c *Anchor) WriteHTMLTo(w io.Writer) (int64, error) {
-	return writeSprintf(w, `<a name="%s"/>`, c.name)
+	// The name can come from the file (like a surname or a country).
+	return writeSprintf(w, `<a name="%s"/>`, html.EscapeString(c.name))
 }
